@@ -258,8 +258,10 @@ def pollLoop (sc : Script) : Nat → State → PollCtl → State
           | none => s
           | some c => pollLoop sc fuel s c
       else
-        let (s, nevents, sg) := dispatchLoop sc (r.batch.length + 1) { s with batch := r.batch } 0 false
-        let s := { s with batch := [] }
+        let d := dispatchLoop sc (r.batch.length + 1) { s with batch := r.batch } 0 false
+        let nevents := d.2.1
+        let sg := d.2.2
+        let s := { d.1 with batch := [] }
         let c := if c.reset then { c with timeout := c.userTimeout, reset := false } else c
         if sg then s      -- signal watcher callback: no signal is ever raised in the simulator
         else if nevents != 0 then
